@@ -4,17 +4,13 @@ import (
 	"bytes"
 	"errors"
 	"fmt"
-	"io"
+	"path/filepath"
 	"strings"
+	"sync"
 	"testing"
 
-	"github.com/pion/rtp"
 	"github.com/pion/rtp/codecs"
 	kit "github.com/pion/webrtc/v4/internal/verifkit"
-	"github.com/pion/webrtc/v4/pkg/media/h264reader"
-	"github.com/pion/webrtc/v4/pkg/media/h264writer"
-	"github.com/pion/webrtc/v4/pkg/media/h265reader"
-	"github.com/pion/webrtc/v4/pkg/media/h265writer"
 )
 
 // C35 — H.264/H.265 writers emit the packetized NAL units once a keyframe arrives.
@@ -574,76 +570,7 @@ func c35Model(c *c35Case) (out []c35ModelUnit, full bool) {
 
 // ------------------------------------------------------------------ system under test
 
-func c35WriteAndReadBack(c *c35Case) (got [][]byte, writeErrs []string, raw []byte, readErr error, panicked any) {
-	defer func() {
-		if p := recover(); p != nil {
-			panicked = p
-		}
-	}()
-	var buf bytes.Buffer
-	var write func(*rtp.Packet) error
-	var closeFn func() error
-	if c.Codec == c35H264 {
-		w := h264writer.NewWith(&buf)
-		write, closeFn = w.WriteRTP, w.Close
-	} else {
-		w := h265writer.NewWith(&buf)
-		write, closeFn = w.WriteRTP, w.Close
-	}
-	for pi, p := range c.Packets {
-		last := pi == len(c.Packets)-1 || c.PktGroup[pi+1] != c.PktGroup[pi]
-		pkt := &rtp.Packet{
-			Header: rtp.Header{
-				Version: 2, PayloadType: 96, SequenceNumber: uint16(1000 + pi), //nolint:gosec
-				Timestamp: uint32(90000 + 3000*c.PktGroup[pi]), SSRC: 0x35, Marker: last, //nolint:gosec
-			},
-			Payload: append([]byte(nil), p...),
-		}
-		if err := write(pkt); err != nil {
-			writeErrs = append(writeErrs, fmt.Sprintf("packet %d: %v", pi, err))
-		}
-	}
-	if err := closeFn(); err != nil {
-		writeErrs = append(writeErrs, fmt.Sprintf("close: %v", err))
-	}
-	raw = append([]byte(nil), buf.Bytes()...)
-	limit := len(c.Units)*2 + 16
-	if c.Codec == c35H264 {
-		rd, err := h264reader.NewReaderWithOptions(bytes.NewReader(raw), h264reader.WithIncludeSEI(true))
-		if err != nil {
-			return nil, writeErrs, raw, err, nil
-		}
-		for len(got) < limit {
-			n, e := rd.NextNAL()
-			if e != nil {
-				if !errors.Is(e, io.EOF) {
-					readErr = e
-				}
-
-				break
-			}
-			got = append(got, append([]byte(nil), n.Data...))
-		}
-	} else {
-		rd, err := h265reader.NewReaderWithOptions(bytes.NewReader(raw), h265reader.WithIncludeSEI(true))
-		if err != nil {
-			return nil, writeErrs, raw, err, nil
-		}
-		for len(got) < limit {
-			n, e := rd.NextNAL()
-			if e != nil {
-				if !errors.Is(e, io.EOF) {
-					readErr = e
-				}
-
-				break
-			}
-			got = append(got, append([]byte(nil), n.Data...))
-		}
-	}
-
-	return got, writeErrs, raw, readErr, nil
-}
+// the writer run itself (sinks, histories, read-back) is in c35_sink_test.go: c35Run.
 
 func c35EqualLists(a, b [][]byte) bool {
 	if len(a) != len(b) {
@@ -746,8 +673,11 @@ func TestVerifC35(t *testing.T) {
 		"(openings: SPS+PPS+IDR, IDR only, SPS only, PPS+SPS+IDR, AUD/SEI-prefixed, VPS+SPS+PPS+IDR ...; then a random tail incl. further keyframes), "+
 		"unit lengths 1..4500 chosen around the MTU, grouped into samples of 1..5 units (bare or Annex-B with 3/4-byte start codes), packetised by "+
 		"codecs.H264Payloader / H265Payloader at MTU 100..1400 with and without aggregation (DisableStapA / SkipAggregation), a minority of H.264 cases by a "+
-		"hand-built RFC 6184 packetiser (counted only); packets fed to NewWith(buffer).WriteRTP, output read back with the matching reader (SEI included). "+
-		"A case is non-trivial when a keyframe unit was transmitted and >= 2 units are expected in the output; distinct by codec, mode, MTU and the (type,length) list with grouping")
+		"hand-built RFC 6184 packetiser (counted only); packets fed to WriteRTP of a writer opened either with NewWith(buffer) (62%) or with the filename constructor "+
+		"New(path) (38%) on a path in a per-run temp dir that is fresh (1/5) or went through a history of 1..3 steps (earlier recordings through New(path) by the same or the other codec's "+
+		"writer, longer or shorter than the judged one; 1..12000 arbitrary / Annex-B-like / text bytes; an empty file); the output (buffer, or the file after Close) is read back with the "+
+		"matching reader (SEI included). A case is non-trivial when a keyframe unit was transmitted and >= 2 units are expected in the output; distinct by codec, mode, MTU, the "+
+		"(type,length) list with grouping and the sink with its history")
 	defer run.Finish()
 	run.Assume("expectation = the NAL units carried by the RTP payloads (parsed here per RFC 6184 §5.6-5.8 / RFC 7798 §4.4.1-4.4.3) from the first keyframe unit onward; " +
 		"units the payloader does not transmit are not expected")
@@ -759,6 +689,13 @@ func TestVerifC35(t *testing.T) {
 		"with SkipAggregation every unit is sent as single NAL or FUs (cross-checked); parameter-set reordering itself is not modelled, the packets are parsed instead")
 	run.Assume("generated units are valid for the Annex-B read-back (no 00 00 00 / 00 00 01 inside, last byte non-zero), F bit 0, H.264 types 1..23, H.265 types 0..47 with >= 1 byte after the 2-byte header")
 	run.Assume("the read-back uses h264reader/h265reader with WithIncludeSEI(true) (their default drops SEI; their framing is the subject of C34)")
+	run.Assume("the output of a writer made by New(filename) is the content of that file after Close, whatever the path held before; the byte stream the same packets give through " +
+		"NewWith(buffer) is used only to NAME the cause of a mismatch (sink vs. WriteRTP), never to judge")
+
+	tmpDir := t.TempDir()
+	var exMu sync.Mutex
+	exIdx := -1
+	var example map[string]any
 
 	n := kit.N(20000, 1000000)
 	run.Parallel(n, 16, func(i int) {
@@ -766,6 +703,7 @@ func TestVerifC35(t *testing.T) {
 		codec := i % 2
 		cname := c35CodecName[codec]
 		c := c35Gen(r, codec)
+		sink := c35GenSink(r, codec) // drawn after the session so that the session of case i does not depend on the sink
 		for ui, u := range c.Units {
 			if !c35PreconditionOK(u) {
 				t.Errorf("harness bug: generated unit %d violates the read-back precondition: %x", ui, u)
@@ -775,7 +713,7 @@ func TestVerifC35(t *testing.T) {
 		}
 		c.packetise()
 		carried, kinds, err := c35Parse(codec, c.Packets)
-		desc := c.desc()
+		desc := c.desc() + sink.desc()
 		if err != nil {
 			run.Inconclusive("payloader-output-unparseable:" + cname)
 			run.Case(desc, false)
@@ -843,9 +781,57 @@ func TestVerifC35(t *testing.T) {
 			}
 		}
 
-		got, writeErrs, raw, readErr, pan := c35WriteAndReadBack(c)
+		out := c35Run(c, sink, filepath.Join(tmpDir, fmt.Sprintf("case%d.%s", i, cname)))
+		got, writeErrs, raw, readErr, pan := out.Got, out.WriteErrs, out.Raw, out.ReadErr, out.Panicked
+		if out.HarnessErr != "" && pan == nil {
+			run.Inconclusive("file-sink:" + cname)
+			t.Logf("case %d: %s", i, out.HarnessErr)
+			run.Case(desc, false)
+
+			return
+		}
 
 		run.Case(desc, k >= 0 && len(exp) >= 2)
+		run.Seen("sink", cname+":"+sink.class())
+		if sink.File {
+			run.Count("file_sessions_recorded_through_New(path)", 1)
+			for _, st := range sink.History {
+				run.Seen("file_history_step", st.Kind)
+				if st.Rec != nil {
+					run.Count("file_sessions_recorded_through_New(path)", 1)
+				}
+			}
+			if out.Existed {
+				last := sink.History[len(sink.History)-1].Kind
+				switch {
+				case len(out.Before) > len(out.RawMem):
+					run.Seen("path_content_before_judged_session", last+":longer-than-this-recording")
+				case len(out.Before) == 0:
+					run.Seen("path_content_before_judged_session", last+":0-bytes")
+				default:
+					run.Seen("path_content_before_judged_session", last+":shorter-or-equal")
+				}
+				if len(out.Before) > len(out.RawMem) && len(out.RawMem) > 0 {
+					run.Count("file_cases_older_content_longer_and_this_recording_nonempty", 1)
+				}
+				if len(out.Before) > 0 && len(out.RawMem) == 0 {
+					run.Count("file_cases_older_content_and_nothing_to_write", 1)
+				}
+			}
+			if out.Existed && len(out.Before) > len(out.RawMem) && len(exp) >= 2 && k > 0 && c35EqualLists(exp, got) {
+				exMu.Lock()
+				if exIdx < 0 || i < exIdx {
+					hist := make([]string, 0, len(sink.History))
+					for _, st := range sink.History {
+						hist = append(hist, fmt.Sprintf("%s -> file %d bytes", st.Kind, st.Size))
+					}
+					exIdx = i
+					example = map[string]any{"case": i, "input": desc, "history": hist, "bytes_in_path_before_New": len(out.Before),
+						"bytes_in_file_after_Close": len(raw), "expected": c35TL(codec, exp), "read_back": c35TL(codec, got)}
+				}
+				exMu.Unlock()
+			}
+		}
 		run.Count("units_generated", len(c.Units))
 		run.Count("units_carried", len(carried))
 		run.Count("units_expected_in_output", len(exp))
@@ -896,6 +882,28 @@ func TestVerifC35(t *testing.T) {
 			d := map[string]any{
 				"codec": cname, "mode": c.Mode, "mtu": c.MTU, "groups": c.Groups, "annexb": c.AnnexB, "units": units, "packets": pk, "carried": cl,
 				"first_keyframe_index": k, "expected": c35TL(codec, exp), "read_back": c35TL(codec, got), "output_bytes": len(raw), "write_errors": writeErrs,
+				"sink": sink.class(),
+			}
+			if sink.File {
+				hist := make([]string, 0, len(sink.History))
+				for _, st := range sink.History {
+					h := fmt.Sprintf("%s -> file %d bytes", st.Kind, st.Size)
+					switch {
+					case st.Rec != nil:
+						h += ": " + st.Rec.desc()
+					case st.Kind == "bytes":
+						h += ": " + trunc(st.Bytes)
+					}
+					hist = append(hist, h)
+				}
+				d["path_history"] = hist
+				d["path_existed_before_New"] = out.Existed
+				d["bytes_in_path_before_New"] = len(out.Before)
+				d["bytes_writer_emits_for_these_packets(NewWith)"] = len(out.RawMem)
+				d["file_head"] = trunc(raw[:min(len(raw), 44)])
+				if n := len(out.RawMem); len(raw) > n {
+					d["file_beyond_this_recording"] = trunc(raw[n:])
+				}
 			}
 			if readErr != nil {
 				d["read_back_error"] = readErr.Error()
@@ -928,13 +936,30 @@ func TestVerifC35(t *testing.T) {
 				run.Count("model_divergence", 1)
 				run.Seen("divergence", "read-back-error-after-exact-list:"+cname)
 			}
+			if sink.File && !bytes.Equal(raw, out.RawMem) {
+				run.Count("model_divergence", 1)
+				run.Seen("divergence", "file-bytes-differ-from-NewWith-bytes-but-same-units:"+cname)
+			}
 
 			return
 		}
-		sig, what := c35Classify(c, carried, k, exp, got)
+		// name the cause: the sink (the file holds something else than what WriteRTP emitted) or WriteRTP itself
+		sig, what := "", ""
+		if sink.File {
+			sig, what = c35ClassifySink(codec, &out)
+			if sig != "" {
+				what += fmt.Sprintf(": expected %s, read back %s", c35TL(codec, exp), c35TL(codec, got))
+			}
+		}
+		if sig == "" {
+			sig, what = c35Classify(c, carried, k, exp, got)
+		}
 		if len(writeErrs) > 0 {
 			what += fmt.Sprintf("; WriteRTP errors: %s", strings.Join(writeErrs[:min(2, len(writeErrs))], "; "))
 		}
 		report(sig, what)
 	})
+	if example != nil {
+		run.Set("example_recording_over_longer_older_content", example)
+	}
 }
